@@ -59,8 +59,8 @@ NATIVE['n_c16_layout'] = dict(
     crate='cairo-lang-sierra-to-casm',
     host='crates/cairo-lang-sierra-to-casm/src/compiler.rs',
     harness='native/cairo-lang-sierra-to-casm/n_c16_layout.rs',
-    props={'C16'},
-    bound='every relative immediate target of every compiled corpus program (file corpus, 382 e2e programs, corpus/c16 with two circuit descriptors)',
+    props={'C16', 'C19'},
+    bound='every relative immediate target and every hint offset of every compiled corpus program (file corpus, 382 e2e programs, corpus/c16 with two circuit descriptors)',
     functions=[('crates/cairo-lang-sierra-to-casm/src/compiler.rs', 'impl ConstsInfo', 'new'),
                ('crates/cairo-lang-sierra-to-casm/src/relocations.rs', None, 'relocate_instructions')],
 )
